@@ -209,6 +209,13 @@ class DC:
 def failer(x='dx', y='dy'):
   """Records its invocation, then raises whatever vfx.FAIL['exc'] makes."""
   r = vfx.rec('failer', locals())
+  if vfx.FAIL.get('mutate'):
+    # a callable that touches the containers it was given before failing
+    for v in (x, y):
+      if isinstance(v, list):
+        v.append('MUTATED-BY-FAILING-CALLABLE')
+      elif isinstance(v, dict):
+        v['MUTATED-BY-FAILING-CALLABLE'] = 1
   if 'exc' in vfx.FAIL:
     raise vfx.FAIL['exc']()
   return r
@@ -229,6 +236,24 @@ def nested_builder(x='dx', y='dy'):
   """Calls fdl.build from inside a callable that is itself being built."""
   r = vfx.rec('nested_builder', locals())
   r.bound['inner'] = fdl.build(fdl.Config(node, x='inner'))
+  return r
+
+
+def unconfig_swallower(x='dx'):
+  """Inside a build: calls an auto_unconfig function whose body raises,
+  swallows that, then tries a nested fdl.build (which must be rejected)."""
+  from vfx import acfg  # pylint: disable=g-import-not-at-top
+  r = vfx.rec('unconfig_swallower', locals())
+  try:
+    acfg.helper_unconfig_raises(x)
+    r.bound['unconfig'] = 'returned'
+  except ValueError:
+    r.bound['unconfig'] = 'raised'
+  try:
+    fdl.build(fdl.Config(node, x='inner'))
+    r.bound['nested'] = 'accepted'
+  except Exception as e:  # pylint: disable=broad-except
+    r.bound['nested'] = 'rejected'
   return r
 
 
